@@ -16,6 +16,7 @@ func init() {
 		ID: "C10",
 		Explanation: "Decides: R1 every segment of the pattern emits text or fails, in both URL builders (path query with enum exhaustion over the segment kinds); R2 strict mode writes a parameter value only behind Valid(value) of the same segment, and regexp validation is anchored at both ends (Valid) / at the start (Match); R3 with strict=true and a non-empty pattern every successful return of Router.URL passed Tree.URL; R4 a missing parameter is an error, the value is followed by the segment's suffix, the configured domain is prefixed on every path; R5 the '-' flag is stripped wherever a parameter name is set. " +
 			"R16 (= C01.R20) parameter names are remembered by the parser on every path. " +
+			"R17 the name is tested for emptiness after the ignore flag is stripped. " +
 			"Not decided: 'fails iff malformed', and the round trip with dispatch.",
 		Assumptions: commonAssumptions,
 		Run: func(c *Ctx) {
@@ -38,6 +39,8 @@ func init() {
 			ruleChainWalkEndsAtTheRoot(c, "R14")
 			ruleAdjacencyIsDecidedOnTheText(c, "R15")
 			ruleParameterNamesAreRemembered(c, "R16")
+			ruleStrippedNameIsNotEmpty(c, "R17")
+			ruleBacktrackUndo(c, "R18")
 		},
 	})
 }
@@ -557,11 +560,27 @@ func ruleNameCleaned(c *Ctx, rule string) {
 			}
 		})
 		if g.Signature.Params().Len() >= 1 && g.Signature.Results().Len() >= 1 {
+			isTrim := func(v ssa.Value) bool {
+				sl, ok := v.(*ssa.Slice)
+				if !ok || sl.Low == nil {
+					return false
+				}
+				k, isC := sl.Low.(*ssa.Const)
+				if !isC || k.Value == nil || k.Int64() != 1 {
+					return false
+				}
+				_, isPar := sl.X.(*ssa.Parameter)
+				return isPar
+			}
 			for _, r := range an.Returns(g) {
 				for _, res := range r.Results {
-					if sl, ok := res.(*ssa.Slice); ok && sl.Low != nil {
-						if k, isC := sl.Low.(*ssa.Const); isC && k.Value != nil && k.Int64() == 1 {
-							if _, isPar := sl.X.(*ssa.Parameter); isPar {
+					if isTrim(res) {
+						pureTrim[g] = true
+					}
+					// a named result assigned on the flagged path: phi(parameter, parameter[1:])
+					if phi, isPhi := res.(*ssa.Phi); isPhi {
+						for _, e := range phi.Edges {
+							if isTrim(e) {
 								pureTrim[g] = true
 							}
 						}
